@@ -273,9 +273,9 @@ impl Repr {
             return Ok(());
         } else {
             // We need to create a new buffer because the current buffer is shared with others.
-            let str = heap.as_str();
-            let additional = new_capacity - str.len();
-            let new_heap = HeapBuffer::with_additional(str, additional)?;
+            // NOTE: `HeapBuffer::with_additional` must not be used here, it grows the capacity at an
+            // amortized rate and the result could be larger than `old_capacity`.
+            let new_heap = HeapBuffer::with_exact_capacity(heap.as_str(), new_capacity)?;
             Repr::from_heap(new_heap)
         };
 
